@@ -47,6 +47,9 @@ var Solvers = []SolverSpec{
 // buildQuery renders an SMT-LIB script: decls + axioms + assumptions + negated goal.
 // If slice is true only assumptions in the cone of influence of the goal are included.
 func (x *Exec) buildQuery(pcs [][]*Term, goals []*Term, slice bool, getValues []*Term) string {
+	// query construction declares skolem constants and caches term strings: serialised
+	x.qmu.Lock()
+	defer x.qmu.Unlock()
 	// collect candidate assumptions (dedupe by pointer/string)
 	type asm struct {
 		t    *Term
